@@ -63,7 +63,7 @@ def run(ctx, res):
     res.evaluations = total
     nontriv = set()
     kinds, framings, errs = {}, {}, {}
-    tok = re.compile(r"(?:^|,)(?:r[^,]*|e[^,:]*:(\w+)(?:\([^)]*\))?|E:(\w+)(?:\([^)]*\))?|(PANIC|RUNAWAY|DIED[^,]*|DIVERGE.*))")
+    tok = re.compile(r"(?:^|,)(?:r[^,]*|e(?:#\d+:[0-9a-f]+|[^,:#]*):(\w+)(?:\([^)]*\))?|E:(\w+)(?:\([^)]*\))?|(PANIC|RUNAWAY|DIED[^,]*|DIVERGE.*))")
     for l in lines:
         f = l.split("\t")
         kinds[f[0]] = kinds.get(f[0], 0) + 1
